@@ -35,6 +35,8 @@ SUBJECTS = {
     "F42": "WSGI applications may call start_response lazily",
     "F43": "do not call the WSGI application for a request the client abandoned",
     "F12": "do not re-arm the keep-alive timer once the peer has stopped sending",
+    "F26": "a WebSocket denial response start is validated at once",
+    "F13": "trio closes a connection only after the writes in progress have gone out",
     "F34": "a failed lifespan startup is only reported once",
     "F35": "a lifespan failure the application swallowed",
     "F36": "worker_serve returns when the lifespan app is still waiting",
